@@ -115,7 +115,8 @@ class Dependency:
     def u_sample(self, n: int, random_state=None):
         """draws n samples in the U space (unit hypercube)"""
         rd = 42 if random_state is None else random_state
-        return self._copula.rvs(n, random_state=rd)
+        # statsmodels squeezes a single draw of some families to shape (d,): always return (n, d)
+        return np.atleast_2d(self._copula.rvs(n, random_state=rd))
 
     def display(self, style="3d_cdf", ax=None):
         """show the PDF or CDF in the u space"""
